@@ -8,6 +8,7 @@ for every calendar a caller can hold (`WF`) and every 32-bit day number.
 -/
 import JulianVerif.Model.Iter
 import JulianVerif.Lemmas.StepInst
+import JulianVerif.Props.C05
 set_option linter.unusedSimpArgs false
 namespace JV.C10
 open JV Spec
@@ -116,5 +117,29 @@ example : ∃ c, Calendar.mkReforming 2299664 = .ok c
     ∧ (Date.mk c 1584 355 .december 30 30 2299968).succ = some ⟨c, 1584, 356, .december, 31, 31, 2299969⟩
     ∧ (Date.mk c 1584 356 .december 31 31 2299969).succ = some ⟨c, 1585, 1, .january, 1, 1, 2299970⟩ :=
   ⟨_, rfl, rfl, rfl⟩
+
+/-! ### the open-ended iterators as GENERATED from iter.rs -/
+
+/-- one generated step of `later()` / `earlier()` / `and_later()` / `and_earlier()` is the model's
+step (Model/Iter.lean), for every date the library hands out -/
+theorem generated_open_ended_steps (d : Date) (hc : WF d.calendar) (hj : InI32 d.jdn)
+    (hcan : d.calendar.atJdn? d.jdn = some d) :
+    Gen.laterNext (some d) = some (laterNext (some d))
+    ∧ Gen.earlierNext (some d) = some (earlierNext (some d))
+    ∧ Gen.andLaterNext (some d) = some (andLaterNext (some d))
+    ∧ Gen.andEarlierNext (some d) = some (andEarlierNext (some d))
+    ∧ Gen.laterNext none = some (laterNext none) ∧ Gen.andLaterNext none = some (andLaterNext none)
+    ∧ Gen.earlierNext none = some (earlierNext none) ∧ Gen.andEarlierNext none = some (andEarlierNext none)
+    ∧ Gen.dateLater d = some d ∧ Gen.dateAndLater d = some d
+    ∧ Gen.dateEarlier d = some d ∧ Gen.dateAndEarlier d = some d := by
+  have hg := Gen.WF.gapOrdered hc
+  obtain ⟨h1, h2, _, _⟩ := C05.succ_pred_no_panic d hc hj hcan
+  have hgs : ∀ d', some d = some d' → Gen.GapOrdered d'.calendar := by
+    intro d' e; cases e; exact hg
+  refine ⟨?_, ?_, ?_, ?_, rfl, rfl, rfl, rfl, rfl, rfl, rfl, rfl⟩
+  · rw [Gen.laterNext_eq _ hgs]; simp only [h1, laterNext, Option.bind, Option.map]
+  · rw [Gen.earlierNext_eq _ hgs]; simp only [h2, earlierNext, Option.bind, Option.map]
+  · rw [Gen.andLaterNext_eq _ hgs]; simp only [h1, andLaterNext, Option.map]
+  · rw [Gen.andEarlierNext_eq _ hgs]; simp only [h2, andEarlierNext, Option.map]
 
 end JV.C10
